@@ -176,6 +176,11 @@ class Module:
         # helpers that no rule knows (extract-function refactorings) are dissolved into their callers: see inline.py
         from .inline import apply as dissolve_helpers
         self.inlined: list[str] = dissolve_helpers(self.tree) if inline else []
+        # a helper every call of which was dissolved no longer exists as far as the rules are concerned
+        self.dissolved: set[str] = set()
+        if self.inlined:
+            still_called = {(dotted(c.func) or "").split(".")[-1] for c in ast.walk(self.tree) if isinstance(c, ast.Call)}
+            self.dissolved = {n for n in self.inlined if n not in still_called}
         set_parents(self.tree)
         self.imports: dict[str, str] = {}
         self.funcs: dict[str, FuncInfo] = {}
@@ -197,6 +202,8 @@ class Module:
             self._index_stmt(st)
 
     def _index_stmt(self, st: ast.stmt) -> None:
+        if isinstance(st, ast.FunctionDef) and st.name in self.dissolved:
+            return
         if isinstance(st, ast.FunctionDef):
             fi = FuncInfo(self, st.name, st, None)
             self.funcs[st.name] = fi
@@ -205,7 +212,7 @@ class Module:
             ci = ClassInfo(self, st)
             self.classes[st.name] = ci
             for sub in st.body:
-                if isinstance(sub, ast.FunctionDef):
+                if isinstance(sub, ast.FunctionDef) and sub.name not in self.dissolved:
                     q = f"{st.name}.{sub.name}"
                     fi = FuncInfo(self, q, sub, ci)
                     # property setters etc. share a name: keep the first (getter)
